@@ -4,6 +4,7 @@ set -e
 cd "$(dirname "$0")"
 mkdir -p out evidence
 if [ -f harness/translate.py ]; then /venv/bin/python harness/translate.py; fi
+if [ -f harness/integ_tables.py ]; then /venv/bin/python harness/integ_tables.py; fi
 cd lean
 lake build AdaptiveModel AdaptiveProofs 2>&1 | grep -v '^trace' | tail -40
 echo "setup done"
